@@ -145,10 +145,17 @@ def aggregate(prop, mod, tier, seed, results, known, wall):
     sigs, states = set(), set()
     samples, violations, families = [], [], collections.Counter()
     dead = []
+    lines_reached, lines_total = {}, {}
     for r in results:
         if "dead" in r:
             dead.append(r)
             continue
+        for fn, ls in r.get("lines_reached", {}).items():
+            lines_reached.setdefault(fn, set()).update(ls)
+        lines_total.update(r.get("lines_total", {}))
+        for fn, ls in r.get("extra_lines", {}).items():
+            lines_reached.setdefault(fn, set()).update(ls)
+        lines_total.update(r.get("extra_totals", {}))
         counters.update(r["counters"])
         sigs.update(r["sigs"])
         states.update(r.get("states", []))
@@ -217,6 +224,7 @@ def aggregate(prop, mod, tier, seed, results, known, wall):
             "known_findings_matched": {k: n for k, (f, n) in matched.items()},
             "inconclusive": inconclusive,
             "not_reached": getattr(mod, "NOT_REACHED", []),
+            "anchored_function_lines_reached": {fn: f"{len(lines_reached.get(fn, ()))}/{lines_total[fn]}" for fn in sorted(lines_total)},
         },
         "assumptions": getattr(mod, "ASSUMPTIONS", []),
         "wall_s": round(wall, 2),
